@@ -176,3 +176,88 @@ Proof.
   - intros x Hx; destruct (H x Hx) as [dx Mx]; exists true; rewrite (R x dx Mx); reflexivity.
   - rewrite Ry; reflexivity.
 Qed.
+
+(* ---------------- the generator ---------------- *)
+Section EargInd.
+  Variable P : earg -> Prop.
+  Hypothesis H_m : forall m, P (EMatcher m).
+  Hypothesis H_o : P EOther.
+  Hypothesis H_l : forall l, (forall x, In x l -> P x) -> P (EList l).
+  Hypothesis H_d : forall l, (forall k x, In (k, x) l -> P x) -> P (EDict l).
+  Fixpoint earg_ind2 (a : earg) : P a :=
+    match a with
+    | EMatcher m => H_m m
+    | EOther => H_o
+    | EList l => H_l l ((fix go (l : list earg) : forall x, In x l -> P x :=
+                           match l with
+                           | [] => fun x f => match f with end
+                           | y :: r => fun x f => match f with
+                                                  | or_introl e => eq_rect y P (earg_ind2 y) x e
+                                                  | or_intror i => go r x i
+                                                  end
+                           end) l)
+    | EDict l => H_d l ((fix go (l : list (pyval * earg)) : forall k x, In (k, x) l -> P x :=
+                           match l with
+                           | [] => fun k x f => match f with end
+                           | (k0, y) :: r => fun k x f => match f with
+                                                          | or_introl e => eq_rect y P (earg_ind2 y) x (f_equal snd e)
+                                                          | or_intror i => go r k x i
+                                                          end
+                           end) l)
+    end.
+End EargInd.
+
+(* a well-formed expected structure: matchers at the leaves of nested lists / dicts, nothing else *)
+Fixpoint wf_earg (a : earg) : bool :=
+  match a with
+  | EMatcher _ => true
+  | EOther => false
+  | EList l => forallb wf_earg l
+  | EDict l => forallb (fun kx => wf_earg (snd kx)) l
+  end.
+
+Definition list_go (path : list pyval) :=
+  fix go (l : list earg) (i : Z) : yielded * bool :=
+    match l with
+    | [] => ([], false)
+    | x :: r => let '(ys, e) := from_arg x (path ++ [VInt i]) in
+                if e then (ys, true) else let '(zs, e') := go r (i + 1)%Z in (ys ++ zs, e')
+    end.
+Definition dict_go (path : list pyval) :=
+  fix go (l : list (pyval * earg)) : yielded * bool :=
+    match l with
+    | [] => ([], false)
+    | (k, x) :: r => let '(ys, e) := from_arg x (path ++ [k]) in
+                     if e then (ys, true) else let '(zs, e') := go r in (ys ++ zs, e')
+    end.
+
+(* the generator raises ValueError exactly on the structures that are not well formed, and every key path it yields extends
+   the path it was given (base_key, then the keys and list indexes down to the matcher) *)
+Theorem from_arg_spec : forall a path,
+  snd (from_arg a path) = negb (wf_earg a) /\
+  (forall p m, In (p, m) (fst (from_arg a path)) -> exists suffix, p = path ++ suffix).
+Proof.
+  induction a as [m| |l IH|l IH] using earg_ind2; intros path.
+  - simpl; split; [reflexivity|]. intros p m' [H|[]]; inversion H; subst; exists []; rewrite app_nil_r; reflexivity.
+  - simpl; split; [reflexivity|intros p m []].
+  - change (from_arg (EList l) path) with (list_go path l 0%Z). simpl wf_earg. generalize 0%Z.
+    induction l as [|x r IHr]; intros i; [simpl; split; [reflexivity|intros p m []]|].
+    simpl. destruct (IH x (or_introl eq_refl) (path ++ [VInt i])) as [E Pf].
+    destruct (from_arg x (path ++ [VInt i])) as [ys e]; simpl in E, Pf; subst e.
+    destruct (wf_earg x); simpl.
+    + destruct (IHr (fun y Hy => IH y (or_intror Hy)) (i + 1)%Z) as [E2 Pf2].
+      fold (list_go path) in *. destruct (list_go path r (i + 1)%Z) as [zs e']; simpl in *; split; [exact E2|].
+      intros p m Hin; apply in_app_or in Hin; destruct Hin as [Hin|Hin]; [|apply (Pf2 p m Hin)].
+      destruct (Pf p m Hin) as [sfx Hs]; exists (VInt i :: sfx); rewrite Hs, <- app_assoc; reflexivity.
+    + split; [reflexivity|]. intros p m Hin; destruct (Pf p m Hin) as [sfx Hs]; exists (VInt i :: sfx); rewrite Hs, <- app_assoc; reflexivity.
+  - change (from_arg (EDict l) path) with (dict_go path l). simpl wf_earg.
+    induction l as [|[k x] r IHr]; [simpl; split; [reflexivity|intros p m []]|].
+    simpl. destruct (IH k x (or_introl eq_refl) (path ++ [k])) as [E Pf].
+    destruct (from_arg x (path ++ [k])) as [ys e]; simpl in E, Pf; subst e.
+    destruct (wf_earg x); simpl.
+    + destruct (IHr (fun k' y Hy => IH k' y (or_intror Hy))) as [E2 Pf2].
+      fold (dict_go path) in *. destruct (dict_go path r) as [zs e']; simpl in *; split; [exact E2|].
+      intros p m Hin; apply in_app_or in Hin; destruct Hin as [Hin|Hin]; [|apply (Pf2 p m Hin)].
+      destruct (Pf p m Hin) as [sfx Hs]; exists (k :: sfx); rewrite Hs, <- app_assoc; reflexivity.
+    + split; [reflexivity|]. intros p m Hin; destruct (Pf p m Hin) as [sfx Hs]; exists (k :: sfx); rewrite Hs, <- app_assoc; reflexivity.
+Qed.
